@@ -637,7 +637,7 @@ func (l *Line) ByteArray(name string, value []byte) *Line {
 	truncated := false
 	rem := cap(l.buffer) - l.index - 1 - len(name) - 2
 	if rem <= len(value)*3 { // each byte occupies 3 characters
-		if rem < len("TRUNCATED ") { // no room for the marker: drop the field
+		if rem <= len("TRUNCATED ") { // no room for the marker after "name=[]": drop the field
 			return l
 		}
 		copy(l.buffer[cap(l.buffer)-len("TRUNCATED "):], []byte("TRUNCATED "))
@@ -657,6 +657,9 @@ func (l *Line) ByteArray(name string, value []byte) *Line {
 	}
 	l.appendByte(']')
 	if truncated {
+		for l.index < cap(l.buffer)-len("TRUNCATED ") { // blank the gap before the marker (no stale bytes of a pooled line)
+			l.appendByte(' ')
+		}
 		l.index = cap(l.buffer) - 1
 	}
 	return l
